@@ -302,6 +302,48 @@ def judge_audit_with_data(m, N, tallies, L, alpha):
     return [], got
 
 
+def judge_contest_wide(m, ncand, alpha, hit):
+    """a plurality contest with ncand candidates (ncand-1 assertions): Contest.find_sample_size on a sample of manual records
+    = the largest per-assertion estimate, also when the costly assertion is one with a comfortable reported margin"""
+    names = ["A"] + [f"Z{i}" for i in range(1, ncand)]
+    tall = [8 * ncand] + [4 * max(0, ncand - 3 - i) for i in range(1, ncand)]  # A first, then decreasing; the last candidates get 0
+    N = sum(tall) + 4
+    votes = []
+    for nm, k in zip(names, tall):
+        votes += [{nm: True}] * k
+    votes += [{}] * 4
+    cvrs = [CVR(id=f"c{i}", votes={"con": dict(v)}, sample_num=i + 1) for i, v in enumerate(votes)]
+    con = Contest.from_dict({"id": "con", "name": "con", "risk_limit": alpha, "cards": N, "choice_function": Contest.SOCIAL_CHOICE_FUNCTION.PLURALITY,
+                             "n_winners": 1, "candidates": names, "winner": ["A"], "audit_type": Audit.AUDIT_TYPE.CARD_COMPARISON,
+                             "test": s1.TESTS[m[0]], "estim": s1.ESTIMS[m[1]], "bet": s1.BETS[m[2]],
+                             "test_kwargs": {k: float(F(v)) if isinstance(v, str) else v for k, v in m[3].items()}, "g": 0.1, "use_style": True,
+                             "tally": None, "sample_size": None, "sample_threshold": 10 ** 9})
+    cons = {"con": con}
+    with warnings.catch_warnings():
+        warnings.simplefilter("ignore")
+        try:
+            Assertion.make_all_assertions(cons)
+            audit = Audit.from_dict({"quantile": 0.5, "error_rate_1": 0, "error_rate_2": 0, "reps": None, "sim_seed": 1,
+                                     "strata": {"s": {"max_cards": N, "use_style": True, "replacement": False}}})
+            Assertion.set_all_margins_from_cvrs(audit, cons, cvrs)
+            cvr_sample = cvrs[:8]  # eight cards reported for A ...
+            mvr_sample = [CVR(id=c.id, votes={"con": dict(c.votes["con"])}) for c in cvr_sample]
+            mvr_sample[1] = CVR(id=cvr_sample[1].id, votes={"con": {names[hit]: True}})  # ... one of which was really for candidate `hit`
+            want = {}
+            for name, asn in con.assertions.items():
+                d, u = asn.mvrs_to_data(mvr_sample, cvr_sample)
+                pop = (list(d) * math.ceil(N / len(d)))[:N]
+                twin = NonnegMean(test=con.test, estim=con.estim, bet=con.bet, u=u, N=N, t=1 / 2, g=con.g, **con.test_kwargs)
+                want[name] = first_crossing(twin.test(np.array(pop))[1], alpha, N)
+            got = con.find_sample_size(audit, mvr_sample=mvr_sample, cvr_sample=cvr_sample)
+        except Exception as e:  # noqa
+            return [(f"C16|contest-wide|exception|{type(e).__name__}", f"{type(e).__name__}: {str(e)[:80]}")], None
+    if got != max(want.values()):
+        worst = max(want, key=want.get)
+        return [("C16|contest-wide|Contest.find_sample_size", f"{ncand} candidates, manual record for {names[hit]}: largest per-assertion estimate {max(want.values())} ({worst}), contest estimate {got}")], got
+    return [], got
+
+
 def judge_raire_estimator(N, tw, tl, polling, alpha):
     to = N - tw - tl
     mean = (tw + 0.5 * to) / N
@@ -463,6 +505,18 @@ def run_shard(sh, rec):
                             rec.vac("audit_with_data_cases")
                             for key, what in v:
                                 rec.violate(key, what, {"kind": "auditdata", "m": mi, "N": N, "tallies": [a_, b_, c_], "alpha": alpha, "L": L})
+    elif kind == "wide":
+        _, mi = sh
+        for ncand in (4, 12, 14):
+            for hit in range(1, ncand):
+                rec.state()
+                for alpha in (0.05, 0.5):
+                    v, got = judge_contest_wide(METHODS[mi], ncand, alpha, hit)
+                    rec.trans()
+                    rec.evals(ncand + 1)
+                    rec.vac("wide_contest_cases")
+                    for key, what in v:
+                        rec.violate(key, what, {"kind": "wide", "m": mi, "ncand": ncand, "alpha": alpha, "hit": hit})
     elif kind == "raire":
         for N in (6, 9, 12):
             for tw in range(1, N + 1):
@@ -505,6 +559,7 @@ def explore(tier, seed):
             sh.append(("sim", mi, N, 4 if q else 5))
         for N in ([6] if q else [6, 8]):
             sh.append(("contest", mi, N))
+        sh.append(("wide", mi))
     return core.pmap(run_shard, sh, seed, progress="C16")
 
 
@@ -523,6 +578,8 @@ def run_case(case):
         return judge_contest_level(METHODS[case["m"]], case["N"], tuple(case["tallies"]), case["alpha"], case["r1"])[0]
     if k == "auditdata":
         return judge_audit_with_data(METHODS[case["m"]], case["N"], tuple(case["tallies"]), case["L"], case["alpha"])[0]
+    if k == "wide":
+        return judge_contest_wide(METHODS[case["m"]], case["ncand"], case["alpha"], case["hit"])[0]
     if k == "raire":
         return judge_raire_estimator(case["N"], case["tw"], case["tl"], case["polling"], case["alpha"])[0]
     return judge_interleave(case["a"], case["b"], case["c"], case["custom"])
